@@ -1,5 +1,6 @@
 # C15 — workers are pinned to distinct PUs inside the process mask (four structural clauses; DESIGN.md §5 C15)
 import re
+from engine import core
 from engine.core import AnalysisBroken, P, T, callee_of, callee_short, cond_atoms, loc_of, strip, block_path
 from engine.kinds import LockFlow, FactFlow, precedes_on_all_paths, always_followed_by, origin
 from .common import facts, lib
@@ -167,6 +168,18 @@ def tested_index_rule(rep, f, d):
         if why:
             rep.ok("C15.R5", f, "%s(.., %s): %s" % (callee_short(ev), T(e), why))
         else:
+            # the value-flow argument is intraprocedural: a decoder that hands the mask test to a helper this analysis has never
+            # seen (extracted after the rules were written) is not decided here - analysis broken, not a violation
+            try:
+                known = set(l.strip() for l in open(core.KNOWN))
+            except OSError:
+                known = set()
+            fresh = sorted(set(callee_of(x) for _, _, x in f.all_events() if x.get("k") == "call" and (callee_of(x) or "").startswith("pika::detail::")
+                               and callee_of(x) not in known))
+            fresh += sorted(set(str(x.get("callee")) for x in (f.raw.get("inlined") or []) if not x.get("lambda")))
+            if fresh:
+                raise AnalysisBroken("%s: PU index '%s' is not accepted on this path and the decoder calls helper(s) unknown to the analysis (%s): the mask test may "
+                                     "have moved there; C15.R5 does not follow values through new helpers" % (d, T(e), ", ".join(fresh)[:160]))
             rep.bad("C15.R5", f, loc_of(ev), "untested-pu:%s:%s" % (d, callee_short(ev)), "%s binds/reports PU index '%s', which is not an index that pu_in_process_mask "
                     "accepted (neither tested on this path, nor equal to the accepted index, nor read unmodified from a container of accepted "
                     "indices): with a process mask that has holes inside a core the worker is bound outside the mask" % (d, T(e)))
@@ -471,16 +484,26 @@ def run(rep, tier):
         raise AnalysisBroken("scheduled_thread_pool::thread_func not instantiated")
     for f in tfs:
         st = [e for _, _, e in f.all_events() if e.get("k") == "call" and callee_short(e) == "set_thread_affinity_mask"]
-        md = [e for _, _, e in f.all_events() if e.get("k") == "decl" and e.get("var") == "mask"]
-        wr = [e for _, _, e in f.all_events() if (e.get("k") == "call" and e.get("op") == "=" and P(e.get("recv")) == "mask") or (e.get("k") == "write" and P(e["lhs"]) == "mask")]
+        # the mask variable is the local initialised from get_pu_mask(..), whatever it is called
+        md = [e for _, _, e in f.all_events() if e.get("k") == "decl" and e.get("init") is not None and "affinity_data_.get_pu_mask(" in T(e["init"])]
+        mv = md[0]["var"] if md else "mask"
+        wr = [e for _, _, e in f.all_events() if (e.get("k") == "call" and e.get("op") == "=" and P(e.get("recv")) == mv) or (e.get("k") == "write" and P(e["lhs"]) == mv)]
         ff = FactFlow(f)
-        okm = len(st) == 1 and P(st[0]["args"][0]) == "mask" and md and T(strip(md[0]["init"])) == "this->affinity_data_.get_pu_mask(topo,global_thread_num)"
+        okm = len(st) == 1 and P(st[0]["args"][0]) == mv and md and T(strip(md[0]["init"])) == "this->affinity_data_.get_pu_mask(topo,global_thread_num)"
         okw = True
         for e in wr:
             pos = [(b, i) for b, i, x in f.all_events() if x is e][0]
             fb = ff.before.get(pos) or frozenset()
             rhs = T(strip(e["args"][0] if e.get("k") == "call" else e["rhs"]))
-            if not ("get_machine_affinity_mask" in rhs and any((not t) and a == "any(mask)" for a, t in fb)):
+            empty_seen = any((not t) and a == "any(%s)" % mv for a, t in fb)
+            for a, t in fb:                     # the test may be kept in a bool local: 'bool const none = !any(m); if (none) m = ..'
+                if re.match(r"^\w+$", a):
+                    ini = reaching_init(f, a, pos)
+                    if ini is not None:
+                        ti = T(strip(ini))
+                        if (ti == "!any(%s)" % mv and t) or (ti == "any(%s)" % mv and not t):
+                            empty_seen = True
+            if not ("get_machine_affinity_mask" in rhs and empty_seen):
                 okw = False
         from engine.kinds import bypass_path as _bp3
         skipped = _bp3(f, lambda e: e.get("k") == "call" and callee_short(e) == "set_thread_affinity_mask")
